@@ -66,3 +66,28 @@ Definition nonvac_check : bool :=
   | _, _, _, _ => false end.
 Example C10_nonvacuous : nonvac_check = true.
 Proof. vm_compute. reflexivity. Qed.
+
+(* ---------------- Marker, Requirement, Tag (theorems proved with their models; restated here) ---------------- *)
+Require C08 C09 C14.
+(* Marker: == is equality of the canonical strings (an equivalence), equal markers hash alike; str(m) reparses to an equal marker *)
+Theorem C10_marker_eq_is_string_eq a b : MkModel.marker_eq a b = true <-> MkModel.format_marker a = MkModel.format_marker b.
+Proof. exact (C09.C09_eq_is_str_eq a b). Qed.
+Print Assumptions C10_marker_eq_is_string_eq.
+Theorem C10_marker_hash (h : str -> N) a b : MkModel.marker_eq a b = true -> h (MkModel.format_marker a) = h (MkModel.format_marker b).
+Proof. exact (C09.C09_hash_agrees h a b). Qed.
+Print Assumptions C10_marker_hash.
+(* Requirement: == is an equivalence (equality of the key: PEP 503 name, extras as a set, canonical clause set, url, marker string);
+   the hash is a function of that key *)
+Theorem C10_requirement_eq_equivalence : (forall a, ReqModel.req_eq a a = true) /\ (forall a b, ReqModel.req_eq a b = ReqModel.req_eq b a) /\
+  (forall a b c, ReqModel.req_eq a b = true -> ReqModel.req_eq b c = true -> ReqModel.req_eq a c = true).
+Proof. exact C08.C08_eq_equivalence. Qed.
+Print Assumptions C10_requirement_eq_equivalence.
+Theorem C10_requirement_hash {H : Type} (hash : ReqModel.rq_key -> H) a b : ReqModel.req_eq a b = true -> hash (ReqModel.req_key a) = hash (ReqModel.req_key b).
+Proof. exact (C08.C08_hash_respects_eq hash a b). Qed.
+Print Assumptions C10_requirement_hash.
+(* Tag: equality is equality of the three lower-cased fields (case-insensitive), for any stored hash function *)
+Theorem C10_tag_eq_is_field_eq h i a p i' a' p' :
+  WheelModel.tag_eq h (WheelModel.mk_tag i a p) (WheelModel.mk_tag i' a' p') = true <->
+  VMeaning.py_lower i = VMeaning.py_lower i' /\ VMeaning.py_lower a = VMeaning.py_lower a' /\ VMeaning.py_lower p = VMeaning.py_lower p'.
+Proof. exact (C14.C14_tag_case_insensitive h i a p i' a' p'). Qed.
+Print Assumptions C10_tag_eq_is_field_eq.
